@@ -123,6 +123,8 @@ def archive_to_fsobj(src_tar):
         elif member.isdev():
             d["major"] = int(member.devmajor)
             d["minor"] = int(member.devminor)
+            # the header keeps the permission bits only, fsDev wants the device type in the mode
+            d["mode"] |= stat.S_IFCHR if member.ischr() else stat.S_IFBLK
             yield fsDev(location, **d)
         else:
             raise AssertionError(
